@@ -24,6 +24,17 @@ def main():
         rp = json.load(open(a[1]))
         st = common.prepare()
         case = rp.get("case")
+        if isinstance(case, str) and case.startswith("race ") and not case.endswith("..."):
+            # a concurrent program: goroutines separated by " || ", ops by "|" (a group starting with PRE runs first, alone)
+            prog = [g.split("|") for g in case[5:].split(" || ")]
+            ok, log = common.build_race()
+            rows, race, rc, err = common.run_race([prog])[0]
+            print("program:", json.dumps(prog)[:2000])
+            print("rc:", rc)
+            for r in rows:
+                print("goroutine:", " | ".join(r)[:600])
+            print("race detector:", race or "no report")
+            return 0
         if not isinstance(case, str) or not case or case.split()[0] not in "ENCVSLKRHMPQI" or rp.get("no_failing_input_found"):
             print(json.dumps(rp, indent=1))
             return 0
